@@ -1,32 +1,77 @@
-"""C04-R5 — the front end makes progress: no loop of the lexer or of a parser can iterate, and no parse
-function can call itself again, without having consumed input in between.
+"""C04-R5 / C10-R5 — the front end makes progress: no loop of the lexer, the token parser or the regex parser can
+complete an iteration, and no parse function can call itself again, without having consumed input in between.
 
-Decided by a small abstract interpretation of each function body over the state "has this path consumed
-input since <start>?".  Consumption is defined from the code itself:
+Decided by a small path-sensitive abstract interpretation of each method body.  The abstract state of a path is
 
-* a *primitive consumer* moves the cursor unconditionally on every normal path: `self.pos += k` (k > 0) in the
-  lexers, `self.current = self.lexer.next_token()` in the token parser (found through the methods that contain
-  such a statement at top level, e.g. `_advance`);
-* a *conditional consumer* is a method that returns True only on paths that passed a consumer (`_match`);
-  in `if self._match(..)` / `while self._match(..)` the true branch has consumed;
-* a *consumer* is a function every normal (non-raising) path of which passes a consumer call; the set is the
-  least fixpoint, so `_expect`, and every `_parse_x` that bottoms out in one, are included.
+    c   has the cursor certainly moved forward since the start (of the method / of the loop iteration)?
+    ne  is the cursor certainly NOT at the end of the input (nothing consumed since that was established)?
+    W   local counters k with the invariant  k > 0  =>  c      (k = 0 ... consume; k += 1)
+    A   locals that hold the character at the cursor (ch = self._current()), valid until something is consumed
+    E   locals v with the invariant  v is not the end-of-input token  =>  c     (v = self.next_token())
 
-What is NOT decided: that the cursor cannot sit at the end of input while a loop keeps "consuming" the end
-marker (the token parser's `_advance` returns EOF again and again); the loops exit there because no specific
-token matches any more or because an operand parser raises, which is a value-level argument.
+Everything is read from the code of the class under analysis:
+
+* the *cursor* is `self.pos` (character scanners) or `self.current` (token parser);
+* a statement `self.pos += k` (k > 0) or `self.current = self.lexer.next_token()` consumes;
+* an *end test* is a comparison of the cursor with the input length (`self.pos < len(self.pattern)`,
+  `self.pos >= self.length`), a call of an *accessor* (a method that returns the character at the cursor, or
+  None / "" at the end) tested for truth / `is not None` / equality with a non-empty literal / `.isdigit()`...,
+  or a method whose body is `return <end test>`;
+* method summaries (least fixpoint): *consumer* (every normal path consumes), *consumer when not at the end*
+  (`_advance` of the scanners), *conditional consumer* (returns True only on paths that consumed: `_match`),
+  *consumer or end token* (`Lexer.next_token`);
+* writes to the cursor other than a forward step are roll-backs: restoring a value saved in the same function
+  puts `c` back to False (look-ahead helpers consume nothing); any other one (`self.pos -= 1`) makes the
+  function and its callers unable to claim consumption.
+
+Also decided here: loops over a LOCAL index (`while i < len(pattern)`): on every iteration path the index is
+assigned a value that is provably greater than its value at the start of the iteration (`i += 1`,
+`i = j + 1` with `j >= i`; `str.find` may return -1 and proves nothing unless that case leaves the loop).
+
+What is NOT decided: that the token parser's loops leave at the end of input (its `_advance` hands out the end
+token again and again; the loops stop there because no specific token matches or an operand parser raises).
 """
 
 from __future__ import annotations
 
 import ast
-from typing import Dict, List, Optional, Set, Tuple
+from typing import Dict, FrozenSet, Iterable, List, NamedTuple, Optional, Set, Tuple
 
 from ..core import AnalysisError, Func, norm, short
 
 FRONT_MODULES = ("lexer", "parser", "regex.parser")
 
 FALL, CONT, BRK, RET = "fall", "continue", "break", "return"
+
+
+class St(NamedTuple):
+    c: bool
+    ne: bool
+    W: FrozenSet[str]  # counters:   k > 0            => c
+    A: FrozenSet[str]  # locals holding the character at the cursor
+    E: FrozenSet[str]  # tokens:     v is not EOF     => c
+    N: FrozenSet[str]  # results:    v is not None    => c
+    P: FrozenSet[str]  # snapshots:  self.pos != v    => c
+    F: FrozenSet[Tuple[str, bool]]  # literals known about the character at the cursor ("$")
+
+
+_E: FrozenSet = frozenset()
+START = St(False, False, _E, _E, _E, _E, _E, _E)
+_RESET = START
+
+_CHAR_PREDICATES = ("isdigit", "isalpha", "isalnum", "isspace", "isidentifier", "isupper", "islower", "isdecimal", "isnumeric")
+
+
+def _consumed(st: St) -> St:
+    return St(True, False, st.W, _E, st.E, st.N, st.P, _E)
+
+
+def _maybe_moved(st: St) -> St:
+    return St(st.c, False, st.W, _E, st.E, st.N, st.P, _E)
+
+
+def _join(a: St, b: St) -> St:
+    return St(a.c and b.c, a.ne and b.ne, a.W & b.W, a.A & b.A, a.E & b.E, a.N & b.N, a.P & b.P, a.F & b.F)
 
 
 class _Progress:
@@ -37,253 +82,991 @@ class _Progress:
         for c in ctx.tree.mro(cls):
             for m in c.all_methods:
                 self.methods.setdefault(m.name, m)
-        self.prim = self._primitives()
-        self.cond = set()  # conditional consumers (return True only after consuming)
-        self.consumers: Set[str] = set(self.prim)
-        self._fixpoint()
+        self.cursors = self._cursor_exprs()
+        self.length_attrs = self._length_attrs()
+        self.accessors = self._accessors()  # name -> "none" | "empty"
+        self.end_methods: Dict[str, str] = self._end_methods()  # name -> "IFF+" / "IFF-"
+        self.writes = {n for n, m in self.methods.items() if any(self._cursor_write(x) for x in m.own_nodes())}
+        self.may_consume = self._closure(self.writes)
+        self.unbalanced = {n for n, m in self.methods.items() if n not in ("__init__",) and self._has_unbalanced_rollback(m)}
+        self.may_rollback = self._closure(self.unbalanced)
+        self.decremented: Dict[str, Set[str]] = {n: {norm(x.target) for x in m.own_nodes() if isinstance(x, ast.AugAssign) and isinstance(x.op, ast.Sub)} for n, m in self.methods.items()}
+        self.consumers: Set[str] = set()
+        self.consumers_ne: Set[str] = set()
+        self.cond: Set[str] = set()
+        self.eof_or: Set[str] = set()
+        self.none_or: Set[str] = set()
+        self._cur: Optional[Func] = None
+        self._inline: List[str] = []
+        self._allcalls: Optional[Set[Tuple[str, bool]]] = None
+        if self.cursors:
+            self._fixpoint()
 
-    # ------------------------------------------------------------------ primitives
-    def _primitives(self) -> Set[str]:
+    # ------------------------------------------------------------------ class facts
+    def _cursor_exprs(self) -> Set[str]:
         out = set()
-        for name, m in self.methods.items():
-            for st in m.body():
-                if isinstance(st, ast.AugAssign) and isinstance(st.op, ast.Add) and norm(st.target) == "self.pos" and isinstance(st.value, ast.Constant) and isinstance(st.value.value, int) and st.value.value > 0:
-                    out.add(name)
+        for m in self.methods.values():
+            for st in m.own_nodes():
+                if isinstance(st, ast.AugAssign) and isinstance(st.op, ast.Add) and norm(st.target) == "self.pos":
+                    out.add("self.pos")
                 if isinstance(st, ast.Assign) and any(norm(t) == "self.current" for t in st.targets) and "next_token" in norm(st.value):
-                    out.add(name)
+                    out.update({"self.current", "self.lexer.pos"})
         return out
 
-    # --------------------------------------------------------------- expression level
-    def _calls(self, e: ast.AST) -> List[ast.Call]:
-        return [n for n in ast.walk(e) if isinstance(n, ast.Call)]
+    def _length_attrs(self) -> Set[str]:
+        out = set()
+        init = self.methods.get("__init__")
+        if init:
+            for st in init.own_nodes():
+                if isinstance(st, ast.Assign) and isinstance(st.value, ast.Call) and norm(st.value.func) == "len":
+                    out.update(norm(t) for t in st.targets)
+        return out
 
-    def expr_consumes(self, e: ast.AST) -> bool:
-        """Evaluating e certainly passes a consumer (a call that is not under a short-circuit or conditional)."""
-        if e is None:
-            return False
-        if isinstance(e, ast.BoolOp):
-            return self.expr_consumes(e.values[0])
-        if isinstance(e, ast.IfExp):
-            return self.expr_consumes(e.test) or (self.expr_consumes(e.body) and self.expr_consumes(e.orelse))
-        if isinstance(e, ast.Call):
-            if isinstance(e.func, ast.Attribute) and norm(e.func.value) == "self" and e.func.attr in self.consumers:
+    def _is_length(self, e: ast.AST) -> bool:
+        return norm(e) in self.length_attrs or (isinstance(e, ast.Call) and norm(e.func) == "len" and len(e.args) == 1 and norm(e.args[0]).startswith("self."))
+
+    def _prim_end_test(self, e: ast.AST) -> Optional[str]:
+        """`self.pos < LEN` -> IFF+ (true iff not at the end); `self.pos >= LEN` -> IFF-."""
+        if isinstance(e, ast.Compare) and len(e.ops) == 1:
+            l, r, op = e.left, e.comparators[0], e.ops[0]
+            if norm(l) == "self.pos" and self._is_length(r):
+                if isinstance(op, ast.Lt):
+                    return "IFF+"
+                if isinstance(op, ast.GtE):
+                    return "IFF-"
+            if norm(r) == "self.pos" and self._is_length(l):
+                if isinstance(op, ast.Gt):
+                    return "IFF+"
+                if isinstance(op, ast.LtE):
+                    return "IFF-"
+            # self.pos + k < LEN  =>  not at the end
+            if isinstance(l, ast.BinOp) and isinstance(l.op, ast.Add) and norm(l.left) == "self.pos" and isinstance(l.right, ast.Constant) and isinstance(l.right.value, int) and l.right.value >= 0 and self._is_length(r) and isinstance(op, ast.Lt):
+                return "IMP+"
+        return None
+
+    def _accessors(self) -> Dict[str, str]:
+        out = {}
+        for name, m in self.methods.items():
+            if isinstance(m.node, ast.Lambda):
+                continue
+            a = m.node.args
+            if len(a.args) != 1 or a.vararg or a.kwarg:
+                continue
+            body = [s for s in m.body() if not (isinstance(s, ast.Expr) and isinstance(s.value, ast.Constant))]
+            if len(body) != 2 or not isinstance(body[0], ast.If) or body[0].orelse or len(body[0].body) != 1 or not isinstance(body[0].body[0], ast.Return) or not isinstance(body[1], ast.Return):
+                continue
+            kind = self._prim_end_test(body[0].test)
+            r_in, r_out = body[0].body[0].value, body[1].value
+            if kind == "IFF-":
+                r_in, r_out = r_out, r_in
+            elif kind != "IFF+":
+                continue
+            # r_in: value when not at the end; r_out: value at the end
+            if isinstance(r_in, ast.Subscript) and norm(r_in.slice) == "self.pos" and isinstance(r_out, ast.Constant) and r_out.value in (None, ""):
+                out[name] = "none" if r_out.value is None else "empty"
+        return out
+
+    def _end_methods(self) -> Dict[str, str]:
+        out = {}
+        for name, m in self.methods.items():
+            body = [s for s in m.body() if not (isinstance(s, ast.Expr) and isinstance(s.value, ast.Constant))]
+            if len(body) == 1 and isinstance(body[0], ast.Return) and body[0].value is not None:
+                k = self._prim_end_test(body[0].value)
+                if k in ("IFF+", "IFF-"):
+                    out[name] = k
+        return out
+
+    def _cursor_write(self, x: ast.AST) -> bool:
+        if isinstance(x, ast.AugAssign):
+            return norm(x.target) in self.cursors
+        if isinstance(x, ast.Assign):
+            return any(norm(t) in self.cursors for t in x.targets)
+        return False
+
+    def _forward_step(self, x: ast.AST) -> bool:
+        if isinstance(x, ast.AugAssign) and isinstance(x.op, ast.Add) and norm(x.target) == "self.pos" and isinstance(x.value, ast.Constant) and isinstance(x.value.value, int) and x.value.value > 0:
+            return True
+        if isinstance(x, ast.Assign) and any(norm(t) == "self.current" for t in x.targets) and isinstance(x.value, ast.Call) and norm(x.value.func).endswith(".next_token"):
+            return True
+        return False
+
+    def _saved_locals(self, m: Func) -> Set[str]:
+        """Locals that hold a copy of a cursor taken by this function (saved_pos = self.lexer.pos)."""
+        return {t.id for x in m.own_nodes() if isinstance(x, ast.Assign) and norm(x.value) in self.cursors for t in x.targets if isinstance(t, ast.Name)}
+
+    def _restore(self, x: ast.AST, m: Func) -> bool:
+        return isinstance(x, ast.Assign) and all(norm(t) in self.cursors for t in x.targets) and isinstance(x.value, ast.Name) and x.value.id in self._saved_locals(m)
+
+    def _has_unbalanced_rollback(self, m: Func) -> bool:
+        for x in m.own_nodes():
+            if self._cursor_write(x) and not self._forward_step(x) and not self._restore(x, m):
+                if m.name == "parse" and isinstance(x, ast.Assign) and isinstance(x.value, ast.Constant):
+                    continue  # the entry point resets the cursor before it starts
                 return True
-            return any(self.expr_consumes(a) for a in list(e.args) + [k.value for k in e.keywords]) or (isinstance(e.func, ast.Attribute) and self.expr_consumes(e.func.value))
-        if isinstance(e, (ast.Lambda, ast.ListComp, ast.GeneratorExp, ast.DictComp, ast.SetComp)):
-            return False
-        return any(self.expr_consumes(c) for c in ast.iter_child_nodes(e) if isinstance(c, ast.expr))
-
-    def true_consumes(self, t: ast.AST) -> bool:
-        """If test t is true, a consumer has run."""
-        if self.expr_consumes(t):
-            return True
-        if isinstance(t, ast.Call) and isinstance(t.func, ast.Attribute) and norm(t.func.value) == "self" and t.func.attr in self.cond:
-            return True
-        if isinstance(t, ast.BoolOp) and isinstance(t.op, ast.And):
-            return any(self.true_consumes(v) for v in t.values)
-        if isinstance(t, ast.BoolOp) and isinstance(t.op, ast.Or):
-            return all(self.true_consumes(v) for v in t.values)
         return False
 
-    def false_consumes(self, t: ast.AST) -> bool:
-        if self.expr_consumes(t):
-            return True
-        if isinstance(t, ast.UnaryOp) and isinstance(t.op, ast.Not):
-            return self.true_consumes(t.operand)
-        return False
+    def _self_calls(self, m: Func) -> Set[str]:
+        return {c.func.attr for c in m.own_nodes() if isinstance(c, ast.Call) and isinstance(c.func, ast.Attribute) and norm(c.func.value) == "self" and c.func.attr in self.methods}
 
-    # ---------------------------------------------------------------- statement level
-    def block(self, stmts: List[ast.stmt], consumed: bool, unconsumed_calls: Optional[Set[str]] = None) -> Set[Tuple[str, bool]]:
-        """Outcomes (exit kind, consumed?) of running stmts from a state `consumed`."""
-        states = {consumed}
-        outs: Set[Tuple[str, bool]] = set()
-        for st in stmts:
-            nxt: Set[bool] = set()
-            for c in states:
-                for kind, c2 in self.stmt(st, c, unconsumed_calls):
-                    if kind == FALL:
-                        nxt.add(c2)
-                    else:
-                        outs.add((kind, c2))
-            states = nxt
-            if not states:
-                break
-        for c in states:
-            outs.add((FALL, c))
-        return outs
-
-    def _note_calls(self, e: ast.AST, consumed: bool, sink: Optional[Set[str]]) -> None:
-        if sink is None or consumed or e is None:
-            return
-        for c in self._calls(e):
-            if isinstance(c.func, ast.Attribute) and norm(c.func.value) == "self":
-                sink.add(c.func.attr)
-
-    def stmt(self, st: ast.stmt, c: bool, sink: Optional[Set[str]]) -> Set[Tuple[str, bool]]:
-        if isinstance(st, (ast.Return,)):
-            self._note_calls(st.value, c, sink)
-            return {(RET, c or self.expr_consumes(st.value))}
-        if isinstance(st, ast.Raise):
-            return set()  # raising ends the parse: no obligation
-        if isinstance(st, ast.Break):
-            return {(BRK, c)}
-        if isinstance(st, ast.Continue):
-            return {(CONT, c)}
-        if isinstance(st, ast.If):
-            self._note_calls(st.test, c, sink)
-            a = self.block(st.body, c or self.true_consumes(st.test), sink)
-            b = self.block(st.orelse, c or self.false_consumes(st.test), sink)
-            return a | b
-        if isinstance(st, ast.While):
-            self._note_calls(st.test, c, sink)
-            body = self.block(st.body, c or self.true_consumes(st.test), sink)
-            outs = set()
-            # zero iterations, or leaving through the test / a break
-            outs.add((FALL, c or self.false_consumes(st.test)))
-            for kind, c2 in body:
-                if kind == BRK:
-                    outs.add((FALL, c2))
-                elif kind == RET:
-                    outs.add((RET, c2))
-                elif kind in (FALL, CONT):
-                    outs.add((FALL, c2 or c))
-            if st.orelse:
-                outs |= self.block(st.orelse, c, sink)
-            return outs
-        if isinstance(st, ast.For):
-            self._note_calls(st.iter, c, sink)
-            body = self.block(st.body, c or self.expr_consumes(st.iter), sink)
-            outs = {(FALL, c)}
-            for kind, c2 in body:
-                if kind == RET:
-                    outs.add((RET, c2))
-                else:
-                    outs.add((FALL, c2 or c))
-            return outs
-        if isinstance(st, ast.Try):
-            outs = self.block(st.body, c, sink)
-            for h in st.handlers:
-                outs |= self.block(h.body, c, sink)
-            if st.finalbody:
-                res = set()
-                for kind, c2 in outs:
-                    for k3, c3 in self.block(st.finalbody, c2, sink):
-                        res.add((kind if k3 == FALL else k3, c3))
-                outs = res
-            return outs
-        if isinstance(st, ast.With):
-            return self.block(st.body, c, sink)
-        if isinstance(st, (ast.FunctionDef, ast.ClassDef, ast.Pass, ast.Import, ast.ImportFrom, ast.Global, ast.Nonlocal)):
-            return {(FALL, c)}
-        # simple statements: Expr, Assign, AugAssign, AnnAssign, Assert, Delete
-        e = getattr(st, "value", None)
-        self._note_calls(e, c, sink)
-        cons = self.expr_consumes(e) if e is not None else False
-        if isinstance(st, ast.AugAssign) and isinstance(st.op, ast.Add) and norm(st.target) == "self.pos" and isinstance(st.value, ast.Constant) and isinstance(st.value.value, int) and st.value.value > 0:
-            cons = True
-        if isinstance(st, ast.Assign) and any(norm(t) == "self.current" for t in st.targets) and "next_token" in norm(st.value):
-            cons = True
-        return {(FALL, c or cons)}
-
-    # --------------------------------------------------------------------- fixpoint
-    def _fixpoint(self) -> None:
+    def _closure(self, seed: Set[str]) -> Set[str]:
+        out = set(seed)
         changed = True
         while changed:
             changed = False
+            for n, m in self.methods.items():
+                if n not in out and self._self_calls(m) & out:
+                    out.add(n)
+                    changed = True
+        return out
+
+    # --------------------------------------------------------------- expression level
+    def _self_method(self, e: ast.AST) -> Optional[str]:
+        if isinstance(e, ast.Call) and isinstance(e.func, ast.Attribute) and norm(e.func.value) == "self" and e.func.attr in self.methods:
+            return e.func.attr
+        return None
+
+    def _call_effect(self, name: str, st: St, sink: Optional[Set]) -> St:
+        if sink is not None and not st.c:
+            sink.add((name, st.ne))
+        if self._allcalls is not None:
+            self._allcalls.add((name, st.ne))
+        if name in self.may_rollback:
+            return _RESET
+        if name in self.consumers or (name in self.consumers_ne and st.ne):
+            return _consumed(st)
+        if name not in self.may_consume:
+            return st
+        if (st.F or st.ne) and name not in self._inline and len(self._inline) < 2 and not isinstance(self.methods[name].node, ast.Lambda):
+            # what is known about the character at the cursor decides which paths of a scanner helper are
+            # feasible (`if ch.isdigit(): self._read_number()`): run the helper from this very state
+            self._inline.append(name)
+            try:
+                outs = [o for o in self.outcomes(self.methods[name], St(st.c, st.ne, _E, _E, _E, _E, _E, st.F), sink) if o[0] in (FALL, RET)]
+            finally:
+                self._inline.pop()
+            if not outs or all(o[1].c for o in outs):
+                return _consumed(st)
+        return _maybe_moved(st)
+
+    def expr(self, e: Optional[ast.AST], st: St, sink: Optional[Set[str]], certain: bool = True) -> St:
+        """State after evaluating e.  `certain` False: e may not be evaluated at all (right operand of and/or,
+        arm of a conditional expression, element of a comprehension): only its may-effects count."""
+        if e is None:
+            return st
+        if isinstance(e, ast.BoolOp):
+            st = self.expr(e.values[0], st, sink, certain)
+            for v in e.values[1:]:
+                st = self.expr(v, st, sink, False)
+            return st
+        if isinstance(e, ast.IfExp):
+            st = self.expr(e.test, st, sink, certain)
+            a = self.expr(e.body, st, sink, certain)
+            b = self.expr(e.orelse, st, sink, certain)
+            return _join(a, b)
+        if isinstance(e, ast.Lambda):
+            return st
+        if isinstance(e, (ast.ListComp, ast.GeneratorExp, ast.SetComp, ast.DictComp)):
+            for x in ast.walk(e):
+                nm = self._self_method(x)
+                if nm:
+                    st = self._uncertain(self._call_effect(nm, st, sink), st)
+            return st
+        if isinstance(e, ast.Call):
+            if isinstance(e.func, ast.Attribute):
+                st = self.expr(e.func.value, st, sink, certain)
+            for a in list(e.args) + [k.value for k in e.keywords]:
+                st = self.expr(a, st, sink, certain)
+            nm = self._self_method(e)
+            if nm:
+                after = self._call_effect(nm, st, sink)
+                return after if certain else self._uncertain(after, st)
+            return st
+        for c in ast.iter_child_nodes(e):
+            if isinstance(c, ast.expr):
+                st = self.expr(c, st, sink, certain)
+        return st
+
+    @staticmethod
+    def _uncertain(after: St, before: St) -> St:
+        """The effect may or may not have happened."""
+        return _join(before, after)
+
+    # ------------------------------------------------------------------- tests
+    def _char_source(self, e: ast.AST, st: St) -> Optional[str]:
+        """"none"/"empty" when e is the character at the cursor (accessor call, or a valid local copy)."""
+        nm = self._self_method(e)
+        if nm in self.accessors and not e.args and not e.keywords:
+            return self.accessors[nm]
+        if isinstance(e, ast.Name) and e.id in st.A:
+            kinds = set(self.accessors.values())
+            return next(iter(kinds)) if len(kinds) == 1 else None
+        return None
+
+    def _atom_end_kind(self, t: ast.AST, st: St) -> Optional[str]:
+        k = self._prim_end_test(t)
+        if k:
+            return k
+        nm = self._self_method(t)
+        if nm in self.end_methods and not t.args:
+            return self.end_methods[nm]
+        src = self._char_source(t, st)
+        if src:
+            return "IFF+"  # truthiness of the current character
+        if isinstance(t, ast.Compare) and len(t.ops) == 1:
+            l, r, op = t.left, t.comparators[0], t.ops[0]
+            src = self._char_source(l, st)
+            if src:
+                if isinstance(r, ast.Constant) and r.value is None:
+                    if isinstance(op, (ast.IsNot, ast.NotEq)):
+                        return "IFF+" if src == "none" else None
+                    if isinstance(op, (ast.Is, ast.Eq)):
+                        return "IFF-" if src == "none" else None
+                    return None
+                if isinstance(op, ast.Eq):
+                    if isinstance(r, ast.Constant) and isinstance(r.value, str) and r.value:
+                        return "IMP+"
+                    if src == "none" and self._is_str_valued(r):
+                        return "IMP+"
+                if isinstance(op, ast.In) and src == "none":
+                    return "IMP+"  # `None in "..."` raises: a True outcome means a character
+                if isinstance(op, ast.In) and isinstance(r, (ast.Tuple, ast.List, ast.Set)) and all(isinstance(x, ast.Constant) and isinstance(x.value, str) and x.value for x in r.elts):
+                    return "IMP+"
+        if isinstance(t, ast.Call) and isinstance(t.func, ast.Attribute) and t.func.attr in _CHAR_PREDICATES and self._char_source(t.func.value, st):
+            return "IMP+"  # "".isdigit() is False
+        return None
+
+    def _is_str_valued(self, e: ast.AST) -> bool:
+        if isinstance(e, ast.Constant):
+            return isinstance(e.value, str)
+        if isinstance(e, ast.Name) and self._cur is not None and not isinstance(self._cur.node, ast.Lambda):
+            for x in self._cur.node.args.args:
+                if x.arg == e.id and x.annotation is not None and norm(x.annotation) == "str":
+                    return True
+        return False
+
+    def _char_literal(self, t: ast.AST, st: St) -> Optional[Tuple[str, bool]]:
+        """(text, polarity-of-the-text-when-t-is-true) of an atom about the character at the cursor, with the
+        accessor call / local copy written as `$`; != and `not in` are folded into == and `in`."""
+        import re as _re
+        found = [n for n in ast.walk(t) if isinstance(n, ast.expr) and self._char_source(n, st)]
+        if not found:
+            # another side-effect-free test of the scanner state (`self._peek().isdigit()`): an opaque literal
+            calls = [n for n in ast.walk(t) if isinstance(n, ast.Call)]
+            pure = all((self._self_method(c) and self._self_method(c) not in self.may_consume) or (isinstance(c.func, ast.Attribute) and c.func.attr in _CHAR_PREDICATES) or norm(c.func) == "len" for c in calls)
+            if pure and any(self._self_method(c) for c in calls) and not isinstance(t, (ast.BoolOp, ast.IfExp)):
+                return (ast.unparse(t), True)
+            return None
+        txt = ast.unparse(t)
+        for n in found:
+            u = ast.unparse(n)
+            txt = _re.sub(r"(?<![\w.])" + _re.escape(u) + r"(?![\w(])", "$", txt) if isinstance(n, ast.Name) else txt.replace(u, "$")
+        pos = True
+        for neg, posop in ((" != ", " == "), (" not in ", " in "), (" is not ", " is ")):
+            if txt.startswith("$" + neg):
+                txt = "$" + posop + txt[len("$" + neg):]
+                pos = False
+                break
+        return (txt, pos)
+
+    _IMPLIES = {"isalpha": ("isalnum",), "isdigit": ("isalnum", "isnumeric"), "isdecimal": ("isdigit", "isalnum", "isnumeric"), "isnumeric": ("isalnum",)}
+
+    def _consistent(self, F: FrozenSet[Tuple[str, bool]], ne: bool) -> bool:
+        import re as _re
+        d: Dict[str, bool] = {}
+        for txt, pol in F:
+            if d.get(txt, pol) != pol:
+                return False
+            d[txt] = pol
+        if ne and d.get("$") is False:
+            return False
+
+        def const_of(txt: str, prefix: str) -> Optional[str]:
+            if txt.startswith(prefix):
+                try:
+                    v = ast.literal_eval(txt[len(prefix):])
+                except Exception:
+                    return None
+                return v if isinstance(v, str) else None
+            return None
+
+        eqs = [c for txt, pol in d.items() if pol for c in [const_of(txt, "$ == ")] if c is not None]
+        if len(set(eqs)) > 1:
+            return False
+
+        def holds(txt: str, ch: str) -> Optional[bool]:
+            if txt == "$":
+                return bool(ch)
+            c = const_of(txt, "$ == ")
+            if c is not None:
+                return ch == c
+            c = const_of(txt, "$ in ")
+            if c is not None:
+                return ch in c
+            m = _re.fullmatch(r"\$\.(is[a-z]+)\(\)", txt)
+            if m and m.group(1) in _CHAR_PREDICATES:
+                return bool(getattr(ch, m.group(1))())
+            if txt == "$ is None":
+                return False
+            return None
+
+        if eqs:
+            for txt, pol in d.items():
+                h = holds(txt, eqs[0])
+                if h is not None and h != pol:
+                    return False
+        # a character known by a positive predicate is a character
+        positive = [txt for txt, pol in d.items() if pol and (txt.startswith("$ == ") and const_of(txt, "$ == ") or _re.fullmatch(r"\$\.is[a-z]+\(\)", txt))]
+        if positive and (d.get("$") is False or d.get("$ is None") is True):
+            return False
+        for txt, pol in d.items():
+            m = _re.fullmatch(r"\$\.(is[a-z]+)\(\)", txt)
+            if m and pol:
+                for q in self._IMPLIES.get(m.group(1), ()):
+                    if d.get(f"$.{q}()") is False:
+                        return False
+        # membership: $ in "abc" true and every member fails another literal
+        for txt, pol in d.items():
+            c = const_of(txt, "$ in ")
+            if c is not None and pol and (ne or d.get("$") is True) and c:
+                members = [ch for ch in c]
+                alive = [ch for ch in members if all((holds(t2, ch) is None or holds(t2, ch) == p2) for t2, p2 in d.items())]
+                if not alive:
+                    return False
+        return True
+
+    def _witness(self, t: ast.AST, st: St, pol: bool) -> bool:
+        """Does `t` being `pol` prove consumption through a counter / end-token witness?"""
+        dec = self.decremented.get(self._cur.name, set()) if self._cur else set()
+        if isinstance(t, ast.Name) and t.id in st.W and t.id not in dec:
+            return pol
+        if isinstance(t, ast.Name) and t.id in st.N:
+            return pol  # a true value is not None
+        if isinstance(t, ast.Compare) and len(t.ops) == 1:
+            l, r, op = t.left, t.comparators[0], t.ops[0]
+            if isinstance(l, ast.Name) and l.id in st.W and isinstance(r, ast.Constant) and isinstance(r.value, int):
+                v = r.value
+                if pol:
+                    if (isinstance(op, ast.Gt) and v >= 0) or (isinstance(op, ast.GtE) and v >= 1):
+                        return True
+                    if isinstance(op, ast.NotEq) and v == 0 and l.id not in dec:
+                        return True
+                else:
+                    if (isinstance(op, ast.LtE) and v >= 0) or (isinstance(op, ast.Lt) and v >= 1):
+                        return True
+                    if isinstance(op, ast.Eq) and v == 0 and l.id not in dec:
+                        return True
+            # result is None / result is not None
+            if isinstance(l, ast.Name) and l.id in st.N and isinstance(r, ast.Constant) and r.value is None:
+                if (isinstance(op, (ast.IsNot, ast.NotEq)) and pol) or (isinstance(op, (ast.Is, ast.Eq)) and not pol):
+                    return True
+            # self.pos == snapshot   (the cursor never moves backwards in this class)
+            if not self.may_rollback:
+                for a, b in ((l, r), (r, l)):
+                    if norm(a) in self.cursors and isinstance(b, ast.Name) and b.id in st.P:
+                        if (isinstance(op, ast.NotEq) and pol) or (isinstance(op, ast.Eq) and not pol):
+                            return True
+                        if pol and ((a is l and isinstance(op, ast.Gt)) or (a is r and isinstance(op, ast.Lt))):
+                            return True
+            # token.type == TokenType.EOF
+            if isinstance(l, ast.Attribute) and l.attr == "type" and isinstance(l.value, ast.Name) and l.value.id in st.E and isinstance(r, ast.Attribute) and r.attr == "EOF":
+                if (isinstance(op, ast.Eq) and not pol) or (isinstance(op, ast.NotEq) and pol):
+                    return True
+        return False
+
+    def refine(self, t: ast.AST, st: St, pol: bool, sink: Optional[Set[str]]) -> List[St]:
+        """States in which test t has just evaluated to `pol` (empty list: cannot happen)."""
+        if isinstance(t, ast.UnaryOp) and isinstance(t.op, ast.Not):
+            return self.refine(t.operand, st, not pol, sink)
+        if isinstance(t, ast.BoolOp):
+            conj = isinstance(t.op, ast.And)
+            if pol == conj:
+                # all operands evaluated, each with outcome pol
+                states = [st]
+                for v in t.values:
+                    states = [s2 for s in states for s2 in self.refine(v, s, pol, sink)]
+                return states
+            # the first i operands had outcome `conj`, operand i had `not conj`
+            out: List[St] = []
+            states = [st]
+            for v in t.values:
+                out += [s2 for s in states for s2 in self.refine(v, s, pol, sink)]
+                states = [s2 for s in states for s2 in self.refine(v, s, not pol, sink)]
+            return out
+        # atom: end test judged on the state BEFORE the test's own effects (its calls are pure or consume)
+        kind = self._atom_end_kind(t, st)
+        after = self.expr(t, st, sink)
+        nm = self._self_method(t)
+        if nm in self.cond and pol:
+            after = _consumed(after)
+        if self._witness(t, after, pol):
+            after = after._replace(c=True)
+        if after.c == st.c and after.A == st.A and after.ne == st.ne:  # nothing moved during the test
+            lit = self._char_literal(t, st)
+            if lit is not None:
+                F2 = after.F | {(lit[0], lit[1] == pol)}
+                if not self._consistent(F2, after.ne or (kind in ("IFF+", "IMP+") and pol) or (kind == "IFF-" and not pol)):
+                    return []
+                # keep the abstraction small: negative equalities/memberships only serve the check just made
+                keep = frozenset(x for x in F2 if x[1] or not (x[0].startswith("$ == ") or x[0].startswith("$ in ")))
+                if len(keep) > 6:
+                    keep = frozenset(sorted(keep, key=lambda x: (not x[1], x[0]))[:6])
+                after = after._replace(F=keep)
+        if kind and after.c == st.c and after.A == st.A:  # nothing moved during the test
+            if kind == "IFF+":
+                if pol:
+                    after = after._replace(ne=True)
+                elif st.ne:
+                    return []
+            elif kind == "IFF-":
+                if not pol:
+                    after = after._replace(ne=True)
+                elif st.ne:
+                    return []
+            elif kind == "IMP+" and pol:
+                after = after._replace(ne=True)
+        return [after]
+
+    # ---------------------------------------------------------------- statement level
+    def block(self, stmts: List[ast.stmt], states: Iterable[St], sink: Optional[Set[str]] = None) -> Set[Tuple[str, St, str]]:
+        """Outcomes (exit kind, state, return info) of running stmts from each of `states`."""
+        cur: Set[St] = set(states)
+        outs: Set[Tuple[str, St, str]] = set()
+        for s in stmts:
+            nxt: Set[St] = set()
+            for st in cur:
+                for kind, st2, info in self.stmt(s, st, sink):
+                    if kind == FALL:
+                        nxt.add(st2)
+                    else:
+                        outs.add((kind, st2, info))
+            cur = nxt
+            if not cur:
+                break
+        for st in cur:
+            outs.add((FALL, st, ""))
+        return outs
+
+    def _ret_info(self, v: Optional[ast.AST]) -> str:
+        if isinstance(v, ast.Constant) and v.value is True:
+            return "true"
+        if v is None or (isinstance(v, ast.Constant) and v.value is None):
+            return "none"
+        if isinstance(v, ast.Constant) and v.value is False:
+            return "false"
+        if isinstance(v, ast.Call) and v.args and isinstance(v.args[0], ast.Attribute) and v.args[0].attr == "EOF":
+            return "eof"
+        return "other"
+
+    def _loop(self, test: Optional[ast.AST], body: List[ast.stmt], orelse: List[ast.stmt], st: St, sink) -> Set[Tuple[str, St, str]]:
+        outs: Set[Tuple[str, St, str]] = set()
+        heads: Set[St] = {st}
+        work = [st]
+        exits: Set[St] = set()
+        while work:
+            h = work.pop()
+            ins = self.refine(test, h, True, sink) if test is not None else [h]
+            for s_out in self.refine(test, h, False, sink) if test is not None else []:
+                for k, s3, info in self.block(orelse, [s_out], sink) if orelse else {(FALL, s_out, "")}:
+                    if k == FALL:
+                        exits.add(s3)
+                    else:
+                        outs.add((k, s3, info))
+            for kind, s2, info in self.block(body, ins, sink):
+                if kind == BRK:
+                    exits.add(s2)
+                elif kind == RET:
+                    outs.add((RET, s2, info))
+                elif s2 not in heads:
+                    heads.add(s2)
+                    work.append(s2)
+        for s in exits:
+            outs.add((FALL, s, ""))
+        return outs
+
+    def stmt(self, s: ast.stmt, st: St, sink: Optional[Set[str]]) -> Set[Tuple[str, St, str]]:
+        if isinstance(s, ast.Return):
+            info = self._ret_info(s.value)
+            if isinstance(s.value, ast.Name) and not st.c:
+                # an unconsumed path returning a witnessed local returns the "nothing" value
+                if s.value.id in st.N:
+                    info = "none"
+                elif s.value.id in st.E:
+                    info = "eof"
+            return {(RET, self.expr(s.value, st, sink), info)}
+        if isinstance(s, ast.Raise):
+            return set()  # raising ends the parse: no obligation
+        if isinstance(s, ast.Break):
+            return {(BRK, st, "")}
+        if isinstance(s, ast.Continue):
+            return {(CONT, st, "")}
+        if isinstance(s, ast.If):
+            outs: Set[Tuple[str, St, str]] = set()
+            outs |= self.block(s.body, self.refine(s.test, st, True, sink), sink)
+            outs |= self.block(s.orelse, self.refine(s.test, st, False, sink), sink)
+            return outs
+        if isinstance(s, ast.While):
+            test = None if (isinstance(s.test, ast.Constant) and s.test.value is True) else s.test
+            return self._loop(test, s.body, s.orelse, st, sink)
+        if isinstance(s, ast.For):
+            st = self.expr(s.iter, st, sink)
+            # zero or more iterations: the loop test is opaque
+            outs = set()
+            heads = {st}
+            work = [st]
+            exits = {st}
+            while work:
+                h = work.pop()
+                for kind, s2, info in self.block(s.body, [h], sink):
+                    if kind == RET:
+                        outs.add((RET, s2, info))
+                    else:
+                        exits.add(s2)
+                        if kind != BRK and s2 not in heads:
+                            heads.add(s2)
+                            work.append(s2)
+            for e in exits:
+                outs |= set(self.block(s.orelse, [e], sink)) if s.orelse else {(FALL, e, "")}
+            return outs
+        if isinstance(s, ast.Try):
+            outs = self.block(s.body, [st], sink)
+            # a handler starts from a state in which any part of the body may have run
+            body_states = [st] + [x[1] for x in outs]
+            weakest = body_states[0]
+            for b in body_states[1:]:
+                weakest = _join(weakest, b)
+            weakest = _maybe_moved(weakest)
+            for h in s.handlers:
+                outs |= self.block(h.body, [weakest], sink)
+            if s.orelse:
+                outs = {o for o in outs if o[0] != FALL} | {o2 for o in outs if o[0] == FALL for o2 in self.block(s.orelse, [o[1]], sink)}
+            if s.finalbody:
+                res = set()
+                for kind, s2, info in outs:
+                    for k3, s3, i3 in self.block(s.finalbody, [s2], sink):
+                        res.add((kind, s3, info) if k3 == FALL else (k3, s3, i3))
+                outs = res
+            return outs
+        if isinstance(s, ast.With):
+            for it in s.items:
+                st = self.expr(it.context_expr, st, sink)
+            return self.block(s.body, [st], sink)
+        if isinstance(s, (ast.FunctionDef, ast.ClassDef, ast.Pass, ast.Import, ast.ImportFrom, ast.Global, ast.Nonlocal)):
+            return {(FALL, st, "")}
+        # simple statements: Expr, Assign, AugAssign, AnnAssign, Assert, Delete
+        value = getattr(s, "value", None)
+        if isinstance(s, ast.Expr) and isinstance(value, (ast.Yield, ast.YieldFrom, ast.Await)):
+            value = value.value
+        before = st
+        st = self.expr(value, st, sink)
+        if self._cursor_write(s):
+            return {(FALL, _consumed(st) if self._forward_step(s) else _RESET, "")}
+        if isinstance(s, (ast.Assign, ast.AnnAssign)):
+            targets = s.targets if isinstance(s, ast.Assign) else [s.target]
+            for t in targets:
+                for nm in [x.id for x in ast.walk(t) if isinstance(x, ast.Name)]:
+                    st = st._replace(W=st.W - {nm}, A=st.A - {nm}, E=st.E - {nm}, N=st.N - {nm}, P=st.P - {nm})
+                if isinstance(t, ast.Name) and value is not None:
+                    if isinstance(value, ast.Constant) and type(value.value) is int and value.value == 0:
+                        st = st._replace(W=st.W | {t.id})
+                    src = self._self_method(value)
+                    if src in self.accessors and not value.args and st.c == before.c:
+                        st = st._replace(A=st.A | {t.id})
+                    if src in self.eof_or and not before.c:
+                        # the call consumed, or returned the end token
+                        st = st._replace(E=st.E | {t.id})
+                    if src in self.none_or and not before.c:
+                        st = st._replace(N=st.N | {t.id})
+                    if norm(value) in self.cursors:
+                        st = st._replace(P=st.P | {t.id})
+        elif isinstance(s, ast.AugAssign) and isinstance(s.target, ast.Name):
+            k = s.target.id
+            inc = isinstance(s.op, ast.Add) and isinstance(s.value, ast.Constant) and type(s.value.value) is int and s.value.value > 0
+            if isinstance(s.op, ast.Sub):
+                pass  # a smaller counter keeps  k > 0 => c
+            elif not (inc and st.c):
+                st = st._replace(W=st.W - {k})
+            st = st._replace(A=st.A - {k}, E=st.E - {k}, N=st.N - {k}, P=st.P - {k})
+        return {(FALL, st, "")}
+
+    # --------------------------------------------------------------------- fixpoint
+    def outcomes(self, m: Func, entry: St, sink: Optional[Set[str]] = None) -> Set[Tuple[str, St, str]]:
+        prev = self._cur
+        self._cur = m
+        try:
+            return self.block(m.body(), [entry], sink)
+        finally:
+            self._cur = prev
+
+    def _fixpoint(self) -> None:
+        changed = True
+        rounds = 0
+        while changed:
+            rounds += 1
+            if rounds > 60:
+                raise AnalysisError("front-end progress summaries do not stabilise")
+            changed = False
             for name, m in self.methods.items():
-                outs = self.block(m.body(), False)
-                normal = [(k, c) for k, c in outs if k in (FALL, RET)]
-                if name not in self.consumers and normal and all(c for _, c in normal):
+                if name == "__init__" or name in self.may_rollback or isinstance(m.node, ast.Lambda):
+                    continue
+                outs = [(k, s, i) for k, s, i in self.outcomes(m, START) if k in (FALL, RET)]
+                if name not in self.consumers and outs and all(s.c for _, s, _ in outs):
                     self.consumers.add(name)
                     changed = True
-                if name not in self.cond and name not in self.consumers:
-                    # returns True only on consumed paths
-                    if self._true_only_after_consuming(m):
-                        self.cond.add(name)
+                if name in self.consumers:
+                    continue
+                if name not in self.eof_or and outs and all(s.c or i == "eof" for _, s, i in outs) and any(i == "eof" for _, _, i in outs):
+                    self.eof_or.add(name)
+                    changed = True
+                if name not in self.none_or and outs and all(s.c or i == "none" for _, s, i in outs) and any(i == "none" for _, _, i in outs):
+                    self.none_or.add(name)
+                    changed = True
+                if name not in self.cond and outs and any(i == "true" for _, _, i in outs) and all(k == RET and i in ("true", "false") for k, _, i in outs) and all(s.c for _, s, i in outs if i == "true"):
+                    self.cond.add(name)
+                    changed = True
+                if name not in self.consumers_ne:
+                    outs_ne = [(k, s, i) for k, s, i in self.outcomes(m, START._replace(ne=True)) if k in (FALL, RET)]
+                    if outs_ne and all(s.c for _, s, _ in outs_ne):
+                        self.consumers_ne.add(name)
                         changed = True
 
-    def _true_only_after_consuming(self, m: Func) -> bool:
-        rets = [n for n in m.own_nodes() if isinstance(n, ast.Return)]
-        if not rets or not any(isinstance(r.value, ast.Constant) and r.value.value is True for r in rets):
-            return False
-        if not all(isinstance(r.value, ast.Constant) and isinstance(r.value.value, bool) for r in rets):
-            return False
-        # every `return True` is reached only with consumed = True
-        ok = True
 
-        def scan(stmts, c):
-            nonlocal ok
-            for st in stmts:
-                if isinstance(st, ast.Return):
-                    if isinstance(st.value, ast.Constant) and st.value.value is True and not c:
-                        ok = False
-                    return
-                if isinstance(st, ast.If):
-                    scan(st.body, c or self.true_consumes(st.test))
-                    scan(st.orelse, c or self.false_consumes(st.test))
-                    continue
-                if isinstance(st, (ast.While, ast.For, ast.Try, ast.With)):
-                    ok = ok and False if any(isinstance(x, ast.Return) for x in ast.walk(st)) else ok
-                    continue
-                for k, c2 in self.stmt(st, c, None):
-                    c = c2
-
-        scan(m.body(), False)
-        return ok
+# ------------------------------------------------------------------------------------------------------
+# local index loops: the index strictly increases on every iteration path
+UNK, GE, GT = 0, 1, 2  # relation of a value to the index at the start of the iteration
 
 
-def rule_frontend_progress(ctx, rep, rid: str) -> None:
-    rep.rule(rid, "no loop of the lexer, the parser or the regex parser can complete an iteration, and no parse function can re-enter itself, without having consumed input in between (progress of every iteration and no left recursion)", floor=30)
+class _Rel(NamedTuple):
+    rel: int  # UNK / GE / GT
+    neg: bool  # ... or a negative "not found" marker (str.find)
+
+
+_R_UNK = _Rel(UNK, False)
+Env = Dict[str, _Rel]
+
+
+class _IndexLoop:
+    """Abstract evaluation of integer expressions relative to `v0`, the loop index at the start of an iteration."""
+
+    def __init__(self, ctx, f: Func, methods: Dict[str, Func], depth: int = 0):
+        self.ctx, self.f, self.methods, self.depth = ctx, f, methods, depth
+
+    def val(self, e: Optional[ast.AST], env: Env) -> _Rel:
+        if isinstance(e, ast.Name):
+            return env.get(e.id, _R_UNK)
+        if isinstance(e, ast.BinOp) and isinstance(e.op, ast.Add):
+            for a, b in ((e.left, e.right), (e.right, e.left)):
+                if isinstance(b, ast.Constant) and type(b.value) is int:
+                    r = self.val(a, env)
+                    if r.neg or r.rel == UNK:
+                        return _R_UNK  # -1 + 1 == 0
+                    if b.value > 0:
+                        return _Rel(GT, False)
+                    return r if b.value == 0 else _R_UNK
+                if isinstance(b, ast.Call) and norm(b.func) == "len":
+                    r = self.val(a, env)
+                    return _R_UNK if r.neg else r
+            return _R_UNK
+        if isinstance(e, ast.IfExp):
+            a, b = self.val(e.body, env), self.val(e.orelse, env)
+            return _Rel(min(a.rel, b.rel), a.neg or b.neg)
+        if isinstance(e, ast.Call):
+            fn = e.func
+            if isinstance(fn, ast.Name) and fn.id == "max" and e.args and not e.keywords:
+                rs = [self.val(a, env) for a in e.args]
+                good = [r.rel for r in rs if not r.neg]
+                return _Rel(max(good), False) if good else _Rel(UNK, True)
+            if isinstance(fn, ast.Name) and fn.id == "min" and e.args and not e.keywords:
+                rs = [self.val(a, env) for a in e.args]
+                return _Rel(min(r.rel for r in rs), any(r.neg for r in rs))
+            if isinstance(fn, ast.Attribute) and fn.attr in ("find", "index") and len(e.args) >= 2 and not e.keywords:
+                start = self.val(e.args[1], env)
+                if start.neg or start.rel == UNK:
+                    return _Rel(UNK, fn.attr == "find")
+                return _Rel(start.rel, fn.attr == "find")
+            if isinstance(fn, ast.Attribute) and norm(fn.value) == "self" and fn.attr in self.methods and self.depth < 2:
+                return self._summary(self.methods[fn.attr], e, env)
+        return _R_UNK
+
+    def _summary(self, g: Func, call: ast.Call, env: Env) -> _Rel:
+        params = [p for p in g.params() if p != "self"]
+        genv: Env = {}
+        for p, a in zip(params, call.args):
+            genv[p] = self.val(a, env)
+        sub = _IndexLoop(self.ctx, g, self.methods, self.depth + 1)
+        rets: List[_Rel] = []
+        sub.run(g.body(), [genv], rets, None, None)
+        if not rets:
+            return _R_UNK
+        return _Rel(min(r.rel for r in rets), any(r.neg for r in rets))
+
+    def run(self, stmts: List[ast.stmt], envs: List[Env], rets: List[_Rel], cont: Optional[List[Env]], brk: Optional[List[Env]]) -> List[Env]:
+        cur = envs
+        for s in stmts:
+            nxt: List[Env] = []
+            for env in cur:
+                nxt += self.step(s, env, rets, cont, brk)
+            cur = self._dedup(nxt)
+            if not cur:
+                break
+        return cur
+
+    @staticmethod
+    def _dedup(envs: List[Env]) -> List[Env]:
+        seen, out = set(), []
+        for e in envs:
+            k = tuple(sorted(e.items()))
+            if k not in seen:
+                seen.add(k)
+                out.append(e)
+        return out
+
+    def _refine(self, t: Optional[ast.AST], env: Env, pol: bool) -> Env:
+        """A test that excludes the negative marker: x < 0, x == -1, x >= 0, x != -1, x > 0 ..."""
+        if t is None:
+            return env
+        if isinstance(t, ast.UnaryOp) and isinstance(t.op, ast.Not):
+            return self._refine(t.operand, env, not pol)
+        if isinstance(t, ast.BoolOp):
+            if isinstance(t.op, ast.And) == pol:
+                for v in t.values:
+                    env = self._refine(v, env, pol)
+            return env
+        if isinstance(t, ast.Compare) and len(t.ops) == 1 and isinstance(t.left, ast.Name) and t.left.id in env:
+            r, op, x = t.comparators[0], t.ops[0], t.left.id
+            c = None
+            if isinstance(r, ast.Constant) and type(r.value) is int:
+                c = r.value
+            elif isinstance(r, ast.UnaryOp) and isinstance(r.op, ast.USub) and isinstance(r.operand, ast.Constant) and type(r.operand.value) is int:
+                c = -r.operand.value
+            if c is None:
+                return env
+            nonneg_if_true = (isinstance(op, ast.GtE) and c >= 0) or (isinstance(op, ast.Gt) and c >= -1) or (isinstance(op, ast.NotEq) and c == -1)
+            nonneg_if_false = (isinstance(op, ast.Lt) and c >= 0) or (isinstance(op, ast.LtE) and c >= -1) or (isinstance(op, ast.Eq) and c == -1)
+            if (pol and nonneg_if_true) or (not pol and nonneg_if_false):
+                env = dict(env)
+                env[x] = _Rel(env[x].rel, False)
+        return env
+
+    def step(self, s: ast.stmt, env: Env, rets, cont, brk) -> List[Env]:
+        if isinstance(s, ast.Return):
+            rets.append(self.val(s.value, env) if s.value is not None else _R_UNK)
+            return []
+        if isinstance(s, ast.Raise):
+            return []
+        if isinstance(s, ast.Break):
+            if brk is not None:
+                brk.append(env)
+            return []
+        if isinstance(s, ast.Continue):
+            if cont is not None:
+                cont.append(env)
+            return []
+        if isinstance(s, ast.If):
+            return self.run(s.body, [self._refine(s.test, env, True)], rets, cont, brk) + self.run(s.orelse, [self._refine(s.test, env, False)], rets, cont, brk)
+        if isinstance(s, (ast.While, ast.For)):
+            # inner loop: iterate to a fixpoint over the (finite) environments
+            test = s.test if isinstance(s, ast.While) else None
+            forever = isinstance(test, ast.Constant) and test.value is True
+            seen = {tuple(sorted(env.items()))}
+            exits: List[Env] = []
+            work = [env]
+            while work:
+                h = work.pop()
+                if not forever:
+                    exits.append(self._refine(test, h, False))
+                inner_cont: List[Env] = []
+                inner_brk: List[Env] = []
+                h_in = dict(self._refine(test, h, True))
+                if isinstance(s, ast.For):
+                    for nm in [x.id for x in ast.walk(s.target) if isinstance(x, ast.Name)]:
+                        h_in[nm] = _R_UNK
+                falls = self.run(s.body, [h_in], rets, inner_cont, inner_brk)
+                exits += inner_brk
+                for e2 in falls + inner_cont:
+                    k = tuple(sorted(e2.items()))
+                    if k not in seen:
+                        seen.add(k)
+                        work.append(e2)
+            return self._dedup(exits)
+        if isinstance(s, ast.Try):
+            outs = self.run(s.body, [env], rets, cont, brk)
+            weakest = {k: _R_UNK for k in env}
+            for h in s.handlers:
+                outs = outs + self.run(h.body, [weakest], rets, cont, brk)
+            if s.finalbody:
+                outs = self.run(s.finalbody, outs, rets, cont, brk)
+            return outs
+        if isinstance(s, ast.With):
+            return self.run(s.body, [env], rets, cont, brk)
+        if isinstance(s, ast.Assign) and len(s.targets) == 1 and isinstance(s.targets[0], ast.Name):
+            env = dict(env)
+            env[s.targets[0].id] = self.val(s.value, env)
+            return [env]
+        if isinstance(s, ast.AugAssign) and isinstance(s.target, ast.Name):
+            env = dict(env)
+            if isinstance(s.op, ast.Add):
+                env[s.target.id] = self.val(ast.BinOp(left=ast.Name(id=s.target.id, ctx=ast.Load()), op=ast.Add(), right=s.value), env)
+            else:
+                env[s.target.id] = _R_UNK
+            return [env]
+        if isinstance(s, (ast.Assign, ast.AnnAssign, ast.AugAssign)):
+            env = dict(env)
+            for t in s.targets if isinstance(s, ast.Assign) else [s.target]:
+                for x in ast.walk(t):
+                    if isinstance(x, ast.Name):
+                        env[x.id] = _R_UNK
+            return [env]
+        return [env]
+
+
+def index_loops(f: Func) -> List[Tuple[ast.While, str]]:
+    """while loops whose test bounds a local integer from above: `i < E`, `i <= E`, possibly inside an `and`."""
+    out = []
+    for loop in f.own_nodes():
+        if not isinstance(loop, ast.While):
+            continue
+        conj = loop.test.values if isinstance(loop.test, ast.BoolOp) and isinstance(loop.test.op, ast.And) else [loop.test]
+        for t in conj:
+            if isinstance(t, ast.Compare) and len(t.ops) == 1 and isinstance(t.ops[0], (ast.Lt, ast.LtE)) and isinstance(t.left, ast.Name):
+                out.append((loop, t.left.id))
+                break
+    return out
+
+
+def check_index_loop(ctx, f: Func, loop: ast.While, var: str, methods: Dict[str, Func]) -> Optional[str]:
+    """None when every iteration path assigns the index a greater value; else a description of the path."""
+    il = _IndexLoop(ctx, f, methods)
+    env0: Env = {var: _Rel(GE, False)}
+    rets: List[_Rel] = []
+    cont: List[Env] = []
+    brk: List[Env] = []
+    falls = il.run(loop.body, [env0], rets, cont, brk)
+    for e in falls + cont:
+        r = e.get(var, _R_UNK)
+        if r.rel != GT or r.neg:
+            if r.neg:
+                why = "can be a negative not-found marker (str.find) plus an offset"
+            elif r == _Rel(GE, False):
+                why = "is not moved"
+            else:
+                why = "is assigned a value that is not provably beyond its previous value"
+            return f"on some path through the body `{var}` {why}"
+    return None
+
+
+# ------------------------------------------------------------------------------------------------------
+def rule_frontend_progress(ctx, rep, rid: str, modules: Tuple[str, ...] = FRONT_MODULES, floor: int = 30) -> None:
+    rep.rule(rid, "no loop of the lexer, the parser or the regex parser can complete an iteration, and no parse function can re-enter itself, without having consumed input in between (progress of every iteration, no left recursion); loops over a local index move it strictly forward on every path", floor=floor)
     t = ctx.tree
     n_loops = 0
-    for modname in FRONT_MODULES:
+    n_unjudged = 0
+    for modname in modules:
         mod = t.mod(modname)
         for ci in mod.classes.values():
             meths = [m for m in ci.all_methods]
-            if not any("pos" in norm(n) or "current" in norm(n) for m in meths for n in m.own_nodes() if isinstance(n, ast.Attribute)):
-                continue
             pg = _Progress(ctx, ci)
-            if not pg.prim:
+            if not pg.cursors:
                 continue
-            # loops
+            if not pg.consumers and not pg.consumers_ne:
+                raise AnalysisError(f"{ci.name}: cursor writes found but no consuming method recognised")
+            rep.analysed.setdefault("frontend_summaries", {})[ci.name] = {"consumers": sorted(pg.consumers), "consumers_when_not_at_end": sorted(pg.consumers_ne - pg.consumers), "conditional": sorted(pg.cond), "consumer_or_end_token": sorted(pg.eof_or), "consumer_or_none": sorted(pg.none_or), "accessors": pg.accessors, "may_roll_back": sorted(pg.may_rollback)}
+            # the token parser's primitive step relies on the scanner's next_token
+            if "self.current" in pg.cursors:
+                lex = next((c for c in t.mod("lexer").classes.values() if "next_token" in {m.name for m in c.all_methods}), None)
+                if lex is None:
+                    raise AnalysisError("scanner class with next_token not found")
+                lpg = _Progress(ctx, lex)
+                key = f"{lex.name}.next_token:consumes-or-end-token"
+                if "next_token" in lpg.eof_or or "next_token" in lpg.consumers:
+                    rep.ok(rid, key)
+                else:
+                    rep.bad(rid, key, f"{lex.name}.next_token can return a token other than the end marker without having moved the scanner: the parser's _advance then makes no progress", lpg.methods["next_token"].loc)
+            idx = {id(l): v for m in meths for l, v in index_loops(m)}
             for m in meths:
-                idx = 0
                 for loop in m.own_nodes():
                     if not isinstance(loop, ast.While):
                         continue
-                    idx += 1
                     n_loops += 1
                     key = f"{m.qual}:while {short(loop.test, 40)}"
-                    body = pg.block(loop.body, pg.true_consumes(loop.test))
-                    stuck = [(k, c) for k, c in body if k in (FALL, CONT) and not c]
+                    loc = f"{m.module.rel}:{loop.lineno}"
+                    idx_why = None
+                    if id(loop) in idx:
+                        idx_why = check_index_loop(ctx, m, loop, idx[id(loop)], pg.methods)
+                        if idx_why is None:
+                            rep.ok(rid, key, {"kind": "local index", "index": idx[id(loop)]})
+                            continue
+                    # judged by the cursor
+                    pg._cur = m
+                    test = None if (isinstance(loop.test, ast.Constant) and loop.test.value is True) else loop.test
+                    ins = pg.refine(test, START, True, None) if test is not None else [START]
+                    body = pg.block(loop.body, ins)
+                    pg._cur = None
+                    stuck = [(k, s) for k, s, _ in body if k in (FALL, CONT) and not s.c]
                     if not stuck:
-                        rep.ok(rid, key)
+                        rep.ok(rid, key, {"kind": "cursor"})
+                    elif idx_why is not None:
+                        rep.bad(rid, key, f"{m.qual}: in `while {short(loop.test, 50)}` {idx_why}: the loop can spin forever on some input", loc)
+                    elif not any(isinstance(x, ast.Attribute) and norm(x).startswith("self.") and (norm(x) in pg.cursors or x.attr in pg.may_consume or x.attr in pg.accessors or x.attr in pg.end_methods) for part in [loop.test] + loop.body for x in ast.walk(part)):
+                        # neither driven by the cursor nor an index loop of the recognised shape: its termination is
+                        # a property of local values this rule does not judge
+                        rep.ok(rid, key, {"kind": "local loop, not judged"})
+                        n_unjudged += 1
                     else:
-                        rep.bad(rid, key, f"{m.qual}: an iteration of `while {short(loop.test, 50)}` can end without consuming input (no cursor advance, token advance or consuming parse call on that path): the front end can spin forever on some input", f"{m.module.rel}:{loop.lineno}")
-            # left recursion: functions reachable from f through calls made before anything was consumed
-            first: Dict[str, Set[str]] = {}
-            for m in meths:
-                sink: Set[str] = set()
-                pg.block(m.body(), False, sink)
-                first[m.name] = {x for x in sink if x in pg.methods}
-            for m in meths:
-                seen: Set[str] = set()
-                work = list(first.get(m.name, ()))
-                path_found = False
-                while work:
-                    x = work.pop()
-                    if x == m.name:
-                        path_found = True
-                        break
-                    if x in seen:
-                        continue
-                    seen.add(x)
-                    work.extend(first.get(x, ()))
-                if not m.name.startswith(("_parse", "parse", "_continue", "_read", "_skip", "next_token")):
+                        rep.bad(rid, key, f"{m.qual}: an iteration of `while {short(loop.test, 50)}` can end without consuming input (no cursor advance, token advance or consuming parse call on that path): the front end can spin forever on some input", loc)
+            # left recursion: (function, not-at-end?) contexts reachable through calls made before anything was consumed
+            first: Dict[Tuple[str, bool], Set[Tuple[str, bool]]] = {}
+            every: Dict[Tuple[str, bool], Set[Tuple[str, bool]]] = {}
+
+            def first_of(node: Tuple[str, bool]) -> Set[Tuple[str, bool]]:
+                if node not in first:
+                    first[node] = set()
+                    every[node] = set()
+                    m_ = pg.methods.get(node[0])
+                    if m_ is not None and not isinstance(m_.node, ast.Lambda):
+                        sink: Set[Tuple[str, bool]] = set()
+                        pg._allcalls = set()
+                        pg.outcomes(m_, START._replace(ne=node[1]), sink)
+                        every[node] = {x for x in pg._allcalls if x[0] in pg.methods}
+                        pg._allcalls = None
+                        first[node] = {x for x in sink if x[0] in pg.methods}
+                return first[node]
+
+            # contexts in which each method is really entered: from the methods nobody in the class calls
+            called = {c for m_ in meths for c in pg._self_calls(m_)}
+            roots = [(m_.name, False) for m_ in meths if m_.name not in called and m_.name != "__init__"]
+            reach: Set[Tuple[str, bool]] = set()
+            work = list(roots)
+            while work:
+                x = work.pop()
+                if x in reach:
                     continue
+                reach.add(x)
+                first_of(x)
+                work.extend(every[x])
+            rep.analysed["frontend_summaries"][ci.name]["entry_points"] = sorted(r[0] for r in roots)
+
+            for m in meths:
+                if not m.name.startswith(("_parse", "parse", "_continue", "_read", "_skip", "_try", "next_token")):
+                    continue
+                path_found = False
+                for ctx_ne in (False, True):
+                    if (m.name, ctx_ne) not in reach:
+                        continue
+                    seen: Set[Tuple[str, bool]] = set()
+                    work = list(first_of((m.name, ctx_ne)))
+                    while work:
+                        x = work.pop()
+                        if x[0] == m.name:
+                            path_found = True
+                            break
+                        if x in seen:
+                            continue
+                        seen.add(x)
+                        work.extend(first_of(x))
                 key = f"{m.qual}:left-recursion"
                 if path_found:
                     rep.bad(rid, key, f"{m.qual} can call itself again (directly or through other parse functions) before any input was consumed: unbounded recursion on some input", m.loc)
                 else:
                     rep.ok(rid, key)
     rep.analysed["frontend_loops"] = n_loops
+    rep.analysed["frontend_loops_not_judged"] = n_unjudged
